@@ -3,6 +3,7 @@ import traceback
 
 from hypothesis import strategies as st
 from metapype.eml import rule as R
+from vf.shipped import RULES
 from metapype.eml import validate
 from metapype.eml.exceptions import MetapypeRuleError
 from metapype.eml.validation_errors import ValidationError as VE
@@ -169,7 +170,7 @@ def driver(ctx, rns):
             if len(variants) > 12:
                 break
         # content
-        d = contentgen.describe(R.rules_dict[rn][2])
+        d = contentgen.describe(RULES[rn][2])
         bad_contents = ["x", "", " "]
         if d["typed"]:
             bad_contents += [s for _, s, v in contentgen.exact(d["typed"][0]) if v != "A"][:40]
@@ -181,7 +182,7 @@ def driver(ctx, rns):
                 v["c"] = c
             variants.append(v)
         # children
-        spec, alpha, mixed, dfa = lang.rule_lang(R.rules_dict, rn)
+        spec, alpha, mixed, dfa = lang.rule_lang(RULES, rn)
         words = [()] + [(a,) for a in alpha] + [(a, a) for a in alpha] + [(a, b) for a in alpha[:6] for b in alpha[:6]]
         w0 = tuple(T.minword.get(e, ()))
         for i in range(len(w0)):
@@ -212,7 +213,7 @@ def fuzz_targets():
 
 
 def run(ctx):
-    names = sorted(R.rules_dict)
+    names = sorted(RULES)
     ctx.pmap(driver, [names[i::16] for i in range(16)])
     ctx.pmap(hyp_shard, range(16))
     from props import c05
